@@ -18,7 +18,7 @@ INVARIANT ClassAliaserRespectsOverride
 """
 
 PINNED_DEVIATIONS = ["gqlname", "depreqraw"]        # repaired by fix: commits -- negative model checks
-SEEDED_SHAPES = ["discardraw", "flatname"]          # shapes of seeded changes -- negative model checks
+SEEDED_SHAPES = ["discardraw", "flatname", "arglookupname"]          # shapes of seeded changes -- negative model checks
 
 GQL_NAME = re.compile(r"^[_A-Za-z][_0-9A-Za-z]*$")
 
@@ -258,29 +258,31 @@ def observe(rep: common.Report, case: dict) -> int:
     # --- GraphQL
     names = [E[r] for r in E if r != "link" or struct == "nested"]
     if all(GQL_NAME.match(x) for x in names) and obj is not None:
-        n += graphql_views(rep, bad, mod, Root, cfg, E, struct, kw, obj, full, root)
+        n += graphql_views(rep, bad, mod, Root, cfg, E, struct, kw, obj, full, root,
+                           {k: ev(t) for k, t in case["params"].items()})
     else:
         rep.add("graphql_skipped_invalid_names")
     return n
 
 
-def graphql_views(rep, bad, mod, Root, cfg, E, struct, kw, obj, full, root) -> int:
+def graphql_views(rep, bad, mod, Root, cfg, E, struct, kw, obj, full, root, P) -> int:
     import graphql
-    from apischema.graphql import graphql_schema
+    from apischema import alias
+    from apischema.graphql import Query, graphql_schema
 
     al = aliasers()
     dyn = al[cfg["call"]] if cfg["call"] != "default" else al[cfg["glob"]]
     seen = {}
 
-    def get(arg_val):
-        seen["arg"] = arg_val
+    def get(arg_val, plain_arg=0):
+        seen["arg"], seen["plain"] = arg_val, plain_arg
         return obj
 
-    get.__annotations__ = {"arg_val": Root, "return": Root}
+    get.__annotations__ = {"arg_val": Root, "plain_arg": int, "return": Root}
 
     gkw = {"aliaser": None} if cfg["call"] == "default" else {"aliaser": al[cfg["call"]]}
     try:
-        schema = graphql_schema(query=[get], **gkw)
+        schema = graphql_schema(query=[Query(get, parameters_metadata={"arg_val": alias("arg_al")})], **gkw)
     except Exception as exc:
         bad("gql_out", f"graphql_schema raised {type(exc).__name__}: {exc}", None)
         return 1
@@ -290,15 +292,15 @@ def graphql_views(rep, bad, mod, Root, cfg, E, struct, kw, obj, full, root) -> i
         bad("gql_out (operation name)", list(q), [dyn("get")])
         return 1
     op = q[dyn("get")]
-    if list(op.args) != [dyn("arg_val")]:
-        bad("gql_arg", list(op.args), [dyn("arg_val")])
+    if list(op.args) != [P["p1"], P["p2"]]:
+        bad("gql_arg_published", list(op.args), [P["p1"], P["p2"]])
 
     def fields_of(t):
         while hasattr(t, "of_type"):
             t = t.of_type
         return t.fields
 
-    for view, t in (("gql_out", op.type), ("gql_in", op.args.get(dyn("arg_val")) and op.args[dyn("arg_val")].type)):
+    for view, t in (("gql_out", op.type), ("gql_in", op.args.get(P["p1"]) and op.args[P["p1"]].type)):
         n += 1
         if t is None:
             continue
@@ -322,12 +324,28 @@ def graphql_views(rep, bad, mod, Root, cfg, E, struct, kw, obj, full, root) -> i
         return "{" + " ".join(f"{k} {sel(v) if isinstance(v, dict) else ''}" for k, v in d.items()) + "}"
 
     data = root(full)
-    query = f"{{ {dyn('get')}({dyn('arg_val')}: {lit(data)}) {sel(data)} }}"
+    query = f"{{ {dyn('get')}({P['p1']}: {lit(data)}, {P['p2']}: 7) {sel(data)} }}"
     res = graphql.graphql_sync(schema, query)
     if res.errors or res.data != {dyn("get"): data}:
         bad("gql_data", {"errors": [str(e) for e in res.errors or []], "data": res.data, "query": query}, {dyn("get"): data})
-    elif seen.get("arg") != obj:
-        bad("gql_arg (value)", repr(seen.get("arg")), repr(obj))
+    else:
+        # an argument rejected by apischema's own validation (validator v1 on f1 == 13): the error is located
+        # at the PUBLISHED argument name followed by the external names of the path
+        bad_data = root(dict(full, f1=13))
+        res2 = graphql.graphql_sync(schema, f"{{ {dyn('get')}({P['p1']}: {lit(bad_data)}) {sel(data)} }}")
+        n += 1
+        want_loc = [P["p1"]] + ([E["link"]] if struct == "nested" else []) + [E["f1"]]
+        msg = str(res2.errors[0].message) if res2.errors else ""
+        try:
+            import ast
+
+            got_locs = [e["loc"] for e in ast.literal_eval(msg)]
+        except Exception:
+            got_locs = msg
+        if got_locs != [want_loc]:
+            bad("gql_arg_error_loc", got_locs, [want_loc])
+    if not (res.errors or res.data != {dyn("get"): data}) and (seen.get("arg") != obj or seen.get("plain") != 7):
+        bad("gql_arg_lookup (values received by the resolver)", repr((seen.get("arg"), seen.get("plain"))), repr((obj, 7)))
     return n
 
 
